@@ -31,6 +31,10 @@ def work(inp):
         name = r.choice(E.QUERY_NAMES)
         idx = r.choice(list(range(-(L + 2), L + 2)) + [-1, 0, L - 1, -L])
         hist.append((name, 0 if name == "len" else idx))
+    # the profile that left the last round, the last but one, and the first, are always asked for (in a random order, in both index forms)
+    tail = [("get_profile", -1), ("get_step", L - 1), ("get_profile", max(0, L - 2)), ("get_step", -L), ("get_profile", 1 if L > 1 else 0)]
+    r.shuffle(tail)
+    hist += tail[:r.randint(2, 5)]
     t = dict(hdr)
     t["events"] = events + E.run_queries(e, hist, inv)
     t["_inp"] = inp
@@ -46,6 +50,14 @@ def corpus(tier, seed):
     for fam in FAMILIES:
         inputs += EL.family_inputs(rng, fam, cands, 2, D.INT_W(2), per_bag=(1 if fam in ("stv", "oneshot", "composite") else 2) if q else 8)
         inputs += EL.family_sampled(rng, fam, 150 if q else 3000, (4, 5), 6)
+    # counts that end by default election (several candidates take the last seats together without a quota): short ballots, m >= 2
+    for fam in ("stv", "composite"):
+        for _ in range(120 if q else 2500):
+            nc = rng.randint(3, 5)
+            cs = D.ABC[:nc]
+            cfgs = [c for c in EL.family_configs(fam, nc) if c["m"] >= 2 and c["xfer"] != "random" and c["rule"] != "TopTwo"]
+            bag = [{"r": [[c] for c in rng.sample(cs, rng.choice([1, 1, 1, 2]))], "w": [rng.randint(1, 4), 1]} for _ in range(rng.randint(2, 6))]
+            inputs.append({"cfg": rng.choice(cfgs), "cands": cs, "ballots": bag, "mode": "explore"})
     for i in inputs:
         i["seed"] = rng.randrange(10**6)
     for inp in rng.sample(inputs, 100 if q else 1000):
